@@ -47,6 +47,7 @@ STEPS = [
     ("repeat-nested", ".repeat 2 { .repeat 2 { .word . + {V} } }\n"),
     ("outputs", "make_bin \"o.bin\"\nmake_wav \"o.wav\", \"NAME\"\nmake_raw\n.word {V}\n"),
     ("fp-and-aliases", "ldf {V}(r1), ac1\nstf ac2, @#100\npush r0\ncall sub\nsub: ret\nsob r1, sub\n"),
+    ("insert-file", "insert_file \"/verif/properties.jsonl\"\n.even\n.word {V}\n"),
     ("caret-nested", ".word ^/ ^|5| + 2 /\n.word {V}\n"),
     ("caret-top", ".word ^|6/2|, ^_7_\n.word {V}\n"),
     ("caret-bad-nesting", ".word ^/ ^|6 / 2| + 2 /\n.word {V}\n"),
@@ -83,6 +84,11 @@ def container_census():
                     out.append((where, "dict", len(val), sorted(map(repr, val.keys()))[:400]))
                 elif isinstance(val, (list, set, frozenset, bytearray)):
                     out.append((where, type(val).__name__, len(val), None))
+                elif callable(getattr(val, "cache_info", None)):
+                    try:
+                        out.append((where, "functools-cache", val.cache_info().currsize, None))
+                    except Exception:
+                        pass
 
             for name, val in sorted(vars(mod).items()):
                 if name.startswith("__") or name == "_verif_real_parse":
